@@ -14,7 +14,7 @@ CONSTANTS
 INVARIANTS Exact Ordered CorrectIsSilent %(emitinv)s
 %(live)s
 """
-FAMILIES = ["param", "result", "variadic", "mset", "qual"]
+FAMILIES = ["param", "result", "variadic", "mset", "sealed", "qual"]
 
 
 def cfg(fam, emit=True, dev="{}", live=True):
@@ -40,7 +40,7 @@ def run(ctx):
             return 1
         return 0
     thorough = ctx.tier == "thorough"
-    for dev, fam in (("StringMatch", "param"), ("RecvOfOrigin", "mset"), ("CurrentPkgName", "qual"), ("SharedImports", "qual")):
+    for dev, fam in (("StringMatch", "param"), ("RecvOfOrigin", "mset"), ("CurrentPkgName", "qual"), ("SharedImports", "qual"), ("OwnPkgLookup", "sealed")):
         r = ctx.tlc("Implements", cfg(fam, emit=False, dev='{"%s"}' % dev, live=False), label="c05_dev_" + dev, allow_violation=True, count=False)
         if r["violated"] is None:
             raise vlib.ToolError("deviation %s violates nothing: vacuous" % dev)
